@@ -11,7 +11,8 @@ RULE = ("case = {fl, ci, ops, probe}: a section state and one probe key. States:
         "names {A, a, b, '', '1', 'A:1'} x mnemonic_transforms {off,on} x flavour {bare SectionItems of HeaderItems, "
         "~Curves of a LASFile}; found by breadth-first search that runs lasio and keeps the first (shortest) history "
         "per state. Probes per state: each session name present, 'ZZ' and '' (absent), the other-case spelling of each "
-        "present name, '1' and '0', ints {0, 1, -1, n, -n-1}, slices {0:2, :, -2:, ::-1}. The reference is computed "
+        "present name, names with a blank before/after, '1' and '0', ints {0, 1, -1, n, -n-1}, slices {0:2, :, -2:, ::-1}; for "
+        "case-normalised states the string probes are repeated on a copy.copy / deepcopy / pickle copy of the section. The reference is computed "
         "by the check from the observed item list and session names: match(k) = first position whose session "
         "mnemonic equals k (ignoring case iff mnemonic_transforms). Every mutating sub-check runs on its own rebuild "
         "of the state. Non-trivial: section of >= 2 items and the probe is not a key that matches only the first "
